@@ -115,6 +115,17 @@ def step (st : St) (line : String) : St × String :=
   | ["lattice"] => let (st, L) := getLattice st; (st, showLattice L)
   | ["fcbo"] => (st, showPairs (fcbo st.K))
   | ["fcbodual"] => (st, showPairs (fcboDual st.K))
+  | ["iterconcepts"] => (st, showPairs (iterconcepts st.K))
+  | ["getconcepts"] => (st, showPairs (getConcepts st.K))
+  | ["getitem", os, ps, items] =>
+    (st, match ctxGetitem st.K (parseList os) (parseList ps) (parseList items) with
+         | .ok (e, i) => s!"{e} {i}"
+         | .error e => e.name)
+  | ["lgetitem", os, ps, items] =>
+    let (st, L) := getLattice st
+    (st, match latticeGetitem st.K L (parseList os) (parseList ps) (parseList items) with
+         | .ok k => toString k
+         | .error e => e.name)
   | ["lookupo", a] => let (st, L) := getLattice st; (st, showOpt (lookupObjects st.K L (nat! a)))
   | ["lookupp", b] => let (st, L) := getLattice st; (st, showOpt (lookupProperties st.K L (nat! b)))
   | ["join", cs] => let (st, L) := getLattice st; (st, showOpt (latticeJoin st.K L (parseNatList cs)))
